@@ -31,6 +31,19 @@ Theorem C15_reload : forall thr batches,
 Proof. exact reload_eq. Qed.
 Print Assumptions C15_reload.
 
+(** the same with I/O errors (faults, not crashes) injected into any of the calls — the write of
+    the batch, or the create / write / sync of the new manifest, the write of CURRENT.tmp or the
+    rename during the rewrite the call triggers — and the history going on afterwards: memory is
+    the fold of the applied edits ([applied]: all but the batches whose write failed) and a
+    reopened manager reads an equal version *)
+Theorem C15_reload_faults : forall thr steps,
+  hist_ok empty_version (applied steps) ->
+  let m := fst (log_all_f (create_new thr) steps) in
+  m_ver m = state_after (applied steps) /\
+  exists v', reload (m_fs m) = RpOk v' /\ version_eq v' (m_ver m).
+Proof. exact reload_faults. Qed.
+Print Assumptions C15_reload_faults.
+
 (** a snapshot of any well-formed version reloads to an equal version *)
 Theorem C15_snapshot : forall v,
   winv v -> lnodup v ->
